@@ -576,6 +576,8 @@ def check_generated(case) -> Verdict:
     base_labels = ['ph:' + cph, 'where:' + car['where'], _pos_label(case), 'control:%s' % _first_line(oc['out'])]
     if car['where'] == 'inc' and car.get('inc_from') not in (None, cph):
         base_labels.append('included-from-other-phase')
+    if car['where'] == 'inc' and car.get('inc_depth', 1) == 2:
+        base_labels.append('included-by-included-file')
     if car['where'] == 'suite':
         base_labels.append('suite:' + ('--suite' if car.get('suite_explicit') else 'exactly.suite'))
     if GC.is_at_eof(case):
@@ -696,8 +698,8 @@ def check_generated(case) -> Verdict:
 
 SUBS = [
     Sub('defect_has_no_effect', check, strategy=lambda tier: cases(),
-        budget={'quick': 600, 'thorough': 20000}),
+        budget={'quick': 600, 'thorough': 10000}),
     Sub('generated_defect', check_generated, strategy=lambda tier: GC.generated_cases(tier),
-        budget={'quick': 1400, 'thorough': 36000}),
+        budget={'quick': 1400, 'thorough': 16000}),
     Sub('enumerated_defects', check_generated, enumerate=GC.enumerated_cases),
 ]
